@@ -62,6 +62,45 @@ def run_design(pid, tier, sc, v):
                 raise Inconclusive("vacuity guard did not fire: %s\n%s" % (name, res.out[-1500:]))
 
 
+# ------------------------------------------------------------------------------------------------ U1b symbolic rate (Apalache)
+LIMITIND_TWINS = [
+    ("LimEarly", "now >= wakeAt /\\ pc' = \"Start\"", "now >= wakeAt - 1 /\\ pc' = \"Start\"", "Sleep returns one unit early"),
+    ("LimSkip", "THEN wakeAt' = now + (iv - (now - startedAt)) /\\ pc' = \"Sleep\"", "THEN wakeAt' = wakeAt /\\ pc' = \"Start\"", "the pause after a batch is skipped (seeded change C04-d)"),
+    ("LimRel", "/\\ prevStart' = startedAt /\\ startedAt' = now /\\ k' = 0", "/\\ prevStart' = startedAt /\\ startedAt' = now - 1 /\\ k' = 0", "the batch start is back-dated (relative pacing, seeded changes C04-a/c)"),
+]
+
+
+def limitind_C04(v, sc):
+    """C04 for EVERY Quantity, Interval and instant: LimitInd.tla (counter abstraction of Limit.tla, symbolic q and iv, unbounded time) -
+    Apalache discharges Init => IndInv and IndInv /\\ Next => IndInv' (IndInv contains the linear form of C04 and the spacing of batch starts);
+    three twins mirroring the seeded changes of the limiter must each yield a counter-example; TLC checks the arithmetic bridge on a grid"""
+    sub = os.path.join(sc, "limitind")
+    os.makedirs(sub, exist_ok=True)
+    stage_specs(sub)
+    src = open(os.path.join(sub, "LimitInd.tla")).read()
+    jobs = [("LimitInd.tla", ["--init=Init", "--inv=IndInv", "--length=0"], False), ("LimitInd.tla", ["--init=IndInit", "--inv=IndInv", "--length=1"], False)]
+    for name, old, newtxt, what in LIMITIND_TWINS:
+        if src.count(old) != 1:
+            raise Inconclusive("cannot derive the twin %s of LimitInd.tla" % name)
+        open(os.path.join(sub, name + ".tla"), "w").write(src.replace("MODULE LimitInd", "MODULE " + name).replace(old, newtxt))
+        jobs.append((name + ".tla", ["--init=IndInit", "--inv=IndInv", "--length=1"], True))
+    res = {}
+    for mod, args, expect_error in jobs:
+        rc, out, wall = apalache(sub, mod, args, timeout=600)
+        err = "The outcome is: Error" in out
+        if not err and "The outcome is: NoError" not in out:
+            raise Inconclusive("apalache failed on %s %s\n%s" % (mod, args, out[-2000:]))
+        if err != expect_error:
+            raise Inconclusive("LimitInd obligation %s %s: expected %s" % (mod, args, "a counter-example" if expect_error else "NoError"))
+        res["%s %s" % (mod, " ".join(args))] = "counter-example (expected, twin)" if err else "NoError (%.0fs)" % wall
+    br = tlc_here(sub, "MC_LimitInd", cfg="MC_LimitInd.cfg", timeout=300)
+    tlc_must_pass(br, "MC_LimitInd (arithmetic bridge between the linear form and the formula of C04)")
+    res["MC_LimitInd Bridge/Tight (TLC, grid)"] = "holds"
+    v.cov["apalache_inductive_rate_bound"] = res
+    v.notes.append("C04 cumulative bound and the spacing of batch starts proved inductive for every Quantity, Interval and instant on the counter "
+                   "abstraction LimitInd.tla (Apalache); twins: " + "; ".join(t[3] for t in LIMITIND_TWINS) + " - each rejected")
+
+
 # ------------------------------------------------------------------------------------------------ U2 schedules from TLC
 def load_graph(path):
     """-dump dot,actionlabels -> (init nodes {id: cfg}, edges [(src, dst, label)])"""
@@ -302,6 +341,8 @@ def run_limit(pid, tier):
     with Scratch(pid.lower()) as sc:
         stage_specs(sc)
         run_design(pid, tier, sc, v)
+        if pid == "C04":
+            limitind_C04(v, sc)
         binary = os.path.join(sc, "limith.test")
         build_test("limith", binary, race=True)
         rng = random.Random(seeds[0] * 1000003 + (4 if pid == "C04" else 12))
